@@ -406,7 +406,104 @@ def pred_c11(tr, story):
             break
     return v
 
-PREDICATES = {"C11": pred_c11, "C05": pred_c05, "C07": pred_c07, "C08": pred_c08, "C12": pred_c12}
+
+# ----------------------------------------------------------------------------- C09
+U = 1024  # time units per second
+
+
+def pred_c09(tr, story):
+    v = []
+    steps = [(l, parse_proj(p), list(o)) for l, p, o in tr.steps if l != "silent"]
+    now = 0
+    started = {}      # tid -> (step, time, bound)
+    cancelled = set()
+    groups = 1
+    req_enc_pending_f = False
+    closed_fatal = None
+    ended = {}
+    for i, (label, p, obs) in enumerate(steps):
+        pj = steps[i - 1][1] if i else None
+        if label.startswith("adv:"):
+            now = max(now, int(label[4:]))
+        if label.startswith("resolved:ok:"):
+            groups = int(label.split(":")[2])
+            if "S" in started:
+                st = started["S"]
+                started["S"] = (st[0], st[1], 30 * U + 60 * U * groups)
+        if label == "start" and "XRT" not in obs:
+            started.setdefault("S", (i, now, 30 * U + 60 * U * 3))
+        if label.startswith("finish:") and "XRT" not in obs:
+            started.setdefault("F", (i, now, 60 * U))
+        if label == "disc":
+            started.setdefault("D", (i, now, 15 * U))
+        if label.startswith("call:"):
+            tmo = int(label.split(":")[5])
+            new = {w for ws in p["table"].values() for w in ws if w.startswith("c")} - ({w for ws in pj["table"].values() for w in ws if w.startswith("c")} if pj else set())
+            if new:
+                started["C" + sorted(new)[0][1:]] = (i, now, tmo)
+        if label.startswith("cancel:"):
+            cancelled.add(label[7:])
+        if label.startswith("data:bp.1") and pj and pj["cs"] != "CLOSED" and pj["ff"] == "P" and pj["fatal"] == "-" \
+                and "F" in started and not any(l.startswith("timer:") for l, _, _ in steps[started["F"][0]:i]):
+            req_enc_pending_f = True
+        if pj and p["cs"] == "CLOSED" and pj["cs"] != "CLOSED":
+            closed_fatal = p["fatal"]
+            pending_at_close = {int(w[1:]) for ws in pj["table"].values() for w in ws if w.startswith("c") and w[1:].isdigit()}
+        for o in obs:
+            if not (o.startswith("T") and "=" in o):
+                continue
+            tid, res = o[1:].split("=", 1)
+            if tid not in started:
+                continue
+            s_i, t0, bound = started[tid]
+            ended[tid] = i
+            if res == "ok":
+                continue
+            if res == "C":
+                if tid not in cancelled:
+                    v.append(("C09/cancel-escaped", f"task {tid} ended with CancelledError although its caller never cancelled it", i))
+                continue
+            if not res.startswith("L.") or "?" in res:
+                v.append(("C09/raw-error", f"task {tid} ended with {res}, not an error of the library's connection-error hierarchy", i))
+            if tid == "F" and req_enc_pending_f and res != "L.RequiresEncryption" and "F" not in cancelled:
+                v.append(("C09/first-cause-masked", f"finish_connection raised {res} although the first fatal cause was RequiresEncryption", i))
+            if tid.startswith("C") and tid[1:].isdigit() and closed_fatal is not None and int(tid[1:]) in pending_at_close and tid not in cancelled \
+                    and not any(l == f"timer:c{tid[1:]}" for l, _, _ in steps[:i]):
+                want = closed_fatal if closed_fatal.startswith("L.") else ("L.Conn" if closed_fatal == "-" else "L.ReadFailed")
+                if res != want:
+                    v.append(("C09/waiter-cause", f"call {tid} was failed by the close with {res}; the first fatal cause was {closed_fatal} (expected {want})", i))
+    # bounded time, judged at quiescent points (the clock only moves between them): a task still pending there
+    # although its bound has passed
+    full_now, t = [], 0
+    for l, _, _ in tr.steps:
+        if l.startswith("adv:"):
+            t = max(t, int(l[4:]))
+        full_now.append(t)
+    # started[] times were taken on the filtered list; recompute start times on the full list by label order
+    nonsilent = [k for k, (l, _, _) in enumerate(tr.steps) if l != "silent"]
+    for at, closed, timers, pending in tr.audits:
+        if at == 0:
+            continue
+        tnow = full_now[at - 1]
+        for tid in pending:
+            if tid in started:
+                s_i, t0, bound = started[tid]
+                if nonsilent[s_i] < at and tnow - t0 > bound:
+                    v.append(("C09/bound", f"task {tid} still pending {tnow - t0} units after it started (bound {bound}, 1/1024 s) at a quiescent point", at - 1))
+    # never hangs: a task still pending at the end of the story with no timer armed that could end it
+    last_audit = tr.audits[-1] if tr.audits else None
+    if last_audit:
+        at, closed, timers, pending = last_audit
+        lib_timers = [t for t in timers if any(k in t for k in ("handle_timeout", "Timeout._on_timeout", "_release_waiter", "_async_send_keep_alive", "_async_pong_not_received"))]
+        for tid in pending:
+            if not lib_timers:
+                v.append(("C09/hang", f"task {tid} is still pending at the end and no timer is armed: it never completes", at - 1))
+    for tid, r in tr.task_outcomes.items():
+        if r[0] == "err" and not r[1].startswith("L.") and tid in ("S", "F", "D") and r[1] != "RT":
+            v.append(("C09/raw-error", f"task {tid} ended with {r[1]}", len(steps) - 1))
+    return v
+
+PREDICATES = {"C09": pred_c09, "C11": pred_c11, "C05": pred_c05, "C07": pred_c07, "C08": pred_c08, "C12": pred_c12}
 
 
 # ----------------------------------------------------------------------------- deterministic window stories
@@ -471,6 +568,28 @@ def window_stories():
     story(est + [CALLS[1], CALLS[2], ("drain",), ("cancel", "C1"), ("drain",), ("data", [H(GR, tag=4)]), ("force",)])
     story(est + [CALLS[1], CALLS[2], ("drain",), ("force",), ("drain",)])
     story(est + [CALLS[1], CALLS[2], ("drain",), ("data", [H(SWITCH_STATE, valid=0)]), ("drain",)])
+
+    # C09 windows: faults in every connect phase, silence, first cause vs following socket-closed
+    for r in ("L.Resolve", "R.OSError", "R.Other", "L.Conn"):
+        story([("start",), ("drain",), ("resolved", r, 1)])
+    story([("start",), ("drain",), ("adv_next",), ("drain",)])                                      # resolve hangs
+    for g in (1, 2, 3):
+        story([("start",), ("drain",), ("resolved", None, g), ("drain",)] + [("adv_next",), ("drain",)] * (g + 1))   # connect hangs
+        story([("start",), ("drain",), ("resolved", None, g), ("drain",)] + [("tcp", "R.OSError"), ("drain",)] * g)
+    story(connect_prefix() + [("adv_next",), ("drain",), ("adv_next",), ("drain",)])                 # silent device after TCP connect
+    story(connect_prefix() + [("data", [("bp", 1)]), ("drain",), ("lost", "R.Reset")])
+    story(connect_prefix() + [("hop", 0, ("data", [("bp", 1)])), ("hop", 0, ("lost", "R.Reset"))])
+    story(connect_prefix() + [("data", [("bp", 1)]), ("eof",)])
+    story(connect_prefix(login=True) + [("data", [H(HELLO)]), ("drain",), ("adv_next",), ("drain",)], login=True)   # no connect response
+    story(connect_prefix() + [("cancel", "F"), ("drain",)])
+    story([("start",), ("drain",), ("cancel", "S"), ("drain",)])
+    story(est + [("disc",), ("drain",), ("adv_next",), ("drain",), ("adv_next",), ("drain",)])          # no disconnect response
+    story(connect_prefix() + [("disc",), ("drain",), ("adv_next",), ("drain",), ("adv_next",), ("drain",)])   # disconnect during handshake
+    story(est + [CALLS[0], ("drain",), ("lost", "R.OSError"), ("drain",)])
+    story(est + [CALLS[0], CALLS[1], ("drain",), ("lost", "R.Other"), ("drain",)])
+    story(est + [("disc",), ("drain",), ("lost", "R.Other"), ("drain",)])
+    story(est + [CALLS[0], ("drain",), ("data", [H(SENSOR_STATE, valid=0)]), ("drain",)])
+    story(est + [CALLS[0], CALLS[1], ("drain",), ("data", [("bp", 0)]), ("drain",)])
     # keepalive ping that discovers a dead socket; peer that only talks without pong
     story(est + [("wfail", 1), ("adv_next",), ("drain",), ("adv_next",), ("drain",), ("adv_next",)], keepalive=256)
     story(est + [("adv_next",), ("drain",), ("data", [H(SWITCH_STATE)]), ("adv_next",), ("drain",), ("data", [H(PING_REQ)]), ("adv_next",), ("drain",)] * 3, keepalive=256)
